@@ -2,6 +2,8 @@
 
 package valid
 
+import "strings"
+
 // C17: either / botheq groups are judged per object: an either group is
 // violated exactly when every member is empty, a botheq group exactly when
 // the members are not all equal, a single-member group is a rule-writing
@@ -242,5 +244,79 @@ func H_C17_map_elems_independent() {
 	r := vNewRef()
 	vRefMap(r, m, rm)
 	vCheckUnordered("C17 Map([]map) three elements", err, r)
+	vReach("end")
+}
+
+// embedded structs are objects of their own: their groups are not merged with the parent's or a sibling's
+type VGBuyer struct {
+	Phone string `valid:"either=1"`
+	Email string `valid:"either=1"`
+	P1    string `valid:"botheq=2"`
+	P2    string `valid:"botheq=2"`
+	Z     string
+}
+
+type VGSeller struct {
+	Phone string `valid:"either=1"`
+	Mail  string `valid:"either=1"`
+	P1    string `valid:"botheq=2"`
+	P2    string `valid:"botheq=2"`
+	Z     string
+}
+
+type vGOrder struct {
+	VGBuyer  `valid:"exist"`
+	VGSeller `valid:"required"`
+	Tel      string `valid:"either=1"`
+	Fax      string `valid:"either=1"`
+}
+
+func H_C17_embedded_objects() {
+	o := &vGOrder{
+		VGBuyer:  VGBuyer{Phone: vStr("bPhone"), P1: "a", P2: vStr("bP2"), Z: "z"},
+		VGSeller: VGSeller{Mail: vStr("sMail"), P1: "b", P2: "b", Z: "z"},
+		Tel:      vStr("tel"),
+	}
+	vRunGroups("C17 embedded structs with groups", o, true)
+}
+
+// URL values with characters that some query parsers treat specially; identical violations in several
+// elements of a slice of maps are all reported
+func H_C17_url_special_values() {
+	rm := NewRule().Set("token", "either=1").Set("sign", "either=1").Set("a", "botheq=2").Set("b", "botheq=2")
+	vals := []string{"", "a;b", "x;1", "x;2", "a+b", "1"}
+	tk, sg := vals[vndChoice("token", len(vals))], vals[vndChoice("sign", 2)]
+	a, b := vals[vndChoice("a", len(vals))], vals[vndChoice("b", len(vals))]
+	encode := vndBool("encode")
+	enc := func(s string) string {
+		if encode {
+			return vPctEncode(s)
+		}
+		return s
+	}
+	u := "h?token=" + enc(tk) + "&sign=" + sg + "&a=" + enc(a) + "&b=" + enc(b)
+	dec := func(s string) string { // '+' is a blank in a query string when it is sent literally
+		return strings.ReplaceAll(s, "+", " ")
+	}
+	dtk, da, db := tk, a, b
+	if !encode {
+		dtk, da, db = dec(tk), dec(a), dec(b)
+	}
+	vULog = nil
+	err := Url(u, rm)
+	r := vNewRef()
+	vRefUrl(r, []string{"token", "sign", "a", "b"}, []string{dtk, sg, da, db}, rm)
+	vCheckUnordered("C17 Url with ';' and '+' in values", err, r)
+	vReach("end")
+}
+
+func H_C17_slice_of_maps_same_violation() {
+	rm := NewRule().Set("a", "botheq=1").Set("b", "botheq=1").Set("c", "either=2").Set("d", "either=2")
+	m := []map[string]string{{"a": "1", "b": "2", "c": "", "d": ""}, {"a": "1", "b": "2", "c": "", "d": ""}, {"a": "1", "b": vStr("b2"), "c": vStr("c2"), "d": ""}}
+	vULog = nil
+	err := Map(m, rm)
+	r := vNewRef()
+	vRefMap(r, m, rm)
+	vCheckUnordered("C17 Map([]map) with the same violation in several elements", err, r)
 	vReach("end")
 }
